@@ -3,10 +3,18 @@ More facts about jsonrpclib/jsonclass.py and the `use_jsonclass` gates of jsonrp
 (The facts shared with C07/C15 are in jsonclass.py.)
 """
 import ast
+import os
+import sys
 
 from __main__ import Fact, lean_str, lean_bool, lean_list
 
+sys.path.insert(0, os.path.dirname(os.path.abspath(__file__)))
+import normalise_jc as NZ  # noqa: E402
+
 PROPERTIES = ["C08", "C20"]
+
+# private functions the facts name themselves: never inlined (see jsonclass.py)
+KEEP = ("_find_fields", "_slots_finder")
 
 
 def _is_name(n, ident):
@@ -17,25 +25,41 @@ def _is_cfg_attr(n, attr):
     return isinstance(n, ast.Attribute) and n.attr == attr and _is_name(n.value, "config")
 
 
+def _known_sum(node, single):
+    """`SUPPORTED_TYPES + tuple(config.serialize_handlers)` (either order), directly or through locals bound once:
+    None when the expression does not mention SUPPORTED_TYPES, else whether the handled types are added."""
+    node = NZ.resolve(node, single)
+    if _is_name(node, "SUPPORTED_TYPES"):
+        return False
+    if isinstance(node, ast.BinOp) and isinstance(node.op, ast.Add):
+        parts = [NZ.resolve(node.left, single), NZ.resolve(node.right, single)]
+        has_sup = any(_is_name(p, "SUPPORTED_TYPES") for p in parts)
+        has_h = any(isinstance(p, ast.Call) and _is_name(p.func, "tuple") and len(p.args) == 1
+                    and _is_cfg_attr(NZ.resolve(p.args[0], single), "serialize_handlers") for p in parts)
+        if has_sup:
+            return bool(has_h)
+    if any(_is_name(n, "SUPPORTED_TYPES") for n in ast.walk(node)):
+        return False
+    return None
+
+
 def _known_types(fn):
-    """`known_types = SUPPORTED_TYPES + tuple(config.serialize_handlers)` (either order) and the field test is
-    `isinstance(attr_value, known_types)`."""
-    target = None
+    """The type argument of every `isinstance` test made against the supported types is
+    `SUPPORTED_TYPES + tuple(config.serialize_handlers)` (either order; written in place or through a local bound
+    once, whatever its name), and there is such a test."""
+    single = NZ.single_assignments(fn)
+    found = []
     for n in ast.walk(fn):
-        if isinstance(n, ast.Assign) and len(n.targets) == 1 and isinstance(n.targets[0], ast.Name) \
-                and isinstance(n.value, ast.BinOp) and isinstance(n.value.op, ast.Add):
-            parts = [n.value.left, n.value.right]
-            has_sup = any(_is_name(p, "SUPPORTED_TYPES") for p in parts)
-            has_h = any(isinstance(p, ast.Call) and _is_name(p.func, "tuple") and len(p.args) == 1
-                        and _is_cfg_attr(p.args[0], "serialize_handlers") for p in parts)
-            if has_sup:
-                target = (n.targets[0].id, has_h)
-    if target is None:
+        if isinstance(n, ast.Call) and _is_name(n.func, "isinstance") and len(n.args) == 2:
+            r = _known_sum(n.args[1], single)
+            if r is not None:
+                found.append(r)
+    if not found:
+        # the sum may exist without being used in a test
+        if any(_known_sum(v, single) is not None for v in single.values()):
+            return False
         return None
-    name, has_h = target
-    used = any(isinstance(n, ast.Call) and _is_name(n.func, "isinstance") and len(n.args) == 2 and _is_name(n.args[1], name)
-               for n in ast.walk(fn))
-    return bool(has_h and used)
+    return all(found)
 
 
 def _single_assignments(fn):
@@ -122,10 +146,31 @@ def _ignore_assembly(fn):
     return True, bool(diff and loop_over_fields), bool(notin)
 
 
+def _filtered_comprehension(n, attrs, il):
+    """A comprehension / generator over `<attrs>.items()` (or over the keys of <attrs>) whose only condition is
+    `<key> not in <il>`."""
+    if not (isinstance(n, (ast.GeneratorExp, ast.DictComp, ast.ListComp)) and len(n.generators) == 1):
+        return False
+    g = n.generators[0]
+    it = g.iter
+    key = None
+    if isinstance(it, ast.Call) and isinstance(it.func, ast.Attribute) and it.func.attr == "items" and _is_name(it.func.value, attrs):
+        key = g.target.elts[0].id if isinstance(g.target, ast.Tuple) and g.target.elts and isinstance(g.target.elts[0], ast.Name) else None
+    elif _is_name(it, attrs) or (isinstance(it, ast.Call) and isinstance(it.func, ast.Attribute) and it.func.attr == "keys"
+                                 and _is_name(it.func.value, attrs) and not it.args):
+        key = g.target.id if isinstance(g.target, ast.Name) else None
+    if key is None or len(g.ifs) != 1:
+        return False
+    c = g.ifs[0]
+    return isinstance(c, ast.Compare) and len(c.ops) == 1 and isinstance(c.ops[0], ast.NotIn) and _is_name(c.left, key) \
+        and _is_name(c.comparators[0], il)
+
+
 def _serial_ignore_filter(fn):
     """In the `if hasattr(obj, serialize_method):` branch: `<il> = getattr(obj, ignore_attribute, []) + ignore` and the
-    attributes returned by the method reach `return_obj` only through a comprehension / generator over
-    `<attrs>.items()` whose condition is `<key> not in <il>` (no unfiltered `update(<attrs>)`)."""
+    attributes returned by the method reach the result only through a comprehension / generator over
+    `<attrs>.items()` whose condition is `<key> not in <il>` — an explicit `for … : if <key> not in <il>: d[k] = v`
+    is that generator (normalise_jc) — never through an unfiltered `update(<attrs>)` or an item-wise copy."""
     branch = _method_branch(fn)
     if branch is None:
         return None
@@ -142,23 +187,24 @@ def _serial_ignore_filter(fn):
                 attrs = n.targets[0].elts[1].id
     if attrs is None:
         return None
+    single = NZ.single_assignments(fn)
     filtered = False
     unfiltered = False
+    good = set()
     for st in branch.body:
         for n in ast.walk(st):
-            if isinstance(n, (ast.GeneratorExp, ast.DictComp, ast.ListComp)) and len(n.generators) == 1:
-                g = n.generators[0]
-                it = g.iter
-                over_attrs = isinstance(it, ast.Call) and isinstance(it.func, ast.Attribute) and it.func.attr == "items" \
-                    and _is_name(it.func.value, attrs)
-                key = g.target.elts[0].id if isinstance(g.target, ast.Tuple) and g.target.elts and isinstance(g.target.elts[0], ast.Name) else None
-                cond = any(isinstance(c, ast.Compare) and len(c.ops) == 1 and isinstance(c.ops[0], ast.NotIn)
-                           and _is_name(c.left, key) and _is_name(c.comparators[0], il) for c in g.ifs)
-                if over_attrs and key is not None and cond and len(g.ifs) == 1:
-                    filtered = True
-            if isinstance(n, ast.Call) and isinstance(n.func, ast.Attribute) and n.func.attr == "update" \
-                    and len(n.args) == 1 and _is_name(n.args[0], attrs):
-                unfiltered = True
+            if _filtered_comprehension(n, attrs, il):
+                filtered = True
+                good |= set(id(m) for m in ast.walk(n))
+    for st in branch.body:
+        for n in ast.walk(st):
+            if isinstance(n, ast.Call) and isinstance(n.func, ast.Attribute) and n.func.attr == "update" and len(n.args) == 1:
+                a = NZ.resolve(n.args[0], single)
+                if _is_name(a, attrs) or (id(a) not in good and any(_is_name(m, attrs) and id(m) not in good for m in ast.walk(a))):
+                    unfiltered = True
+            if isinstance(n, ast.Assign) and any(isinstance(t, ast.Subscript) for t in n.targets) \
+                    and any(_is_name(m, attrs) for m in ast.walk(n)):
+                unfiltered = True  # an item-wise copy that the normal form could not read as a filtered generator
     return bool(filtered and not unfiltered)
 
 
@@ -223,42 +269,32 @@ def _names_consulted(fn):
 
 
 def _gate(fn, target_attr):
-    """Every call `jsonclass.<target_attr>(...)` of the function sits in the body (not the else) of an
-    `if config.use_jsonclass:`; there is at least one.  -> bool | None"""
+    """Every call `jsonclass.<target_attr>(...)` of the function is reached exactly under `config.use_jsonclass`: on
+    every path to it the LAST condition evaluated is `config.use_jsonclass` found true, and the `if` that tests it
+    tests nothing else (`if config.use_jsonclass:` around the call and `if not config.use_jsonclass: return …` before
+    it are the same thing; `if config.use_jsonclass and <more>:`, a further test between the gate and the call, or a
+    path that reaches the call without the gate are not).  There is at least one such call.  -> bool | None"""
     if fn is None:
         return None
-    par = {}
-    for n in ast.walk(fn):
-        for c in ast.iter_child_nodes(n):
-            par[c] = n
-    calls = [n for n in ast.walk(fn) if isinstance(n, ast.Call) and isinstance(n.func, ast.Attribute)
+    calls = [n for n in NZ.dfs_own(fn) if isinstance(n, ast.Call) and isinstance(n.func, ast.Attribute)
              and n.func.attr == target_attr and _is_name(n.func.value, "jsonclass")]
     if not calls:
         return None
     for c in calls:
-        n = c
-        gated = False
-        while n in par:
-            p = par[n]
-            if isinstance(p, ast.If) and _is_cfg_attr(p.test, "use_jsonclass") and any(n is b or _contains(b, n) for b in p.body):
-                gated = True
-                break
-            # early-return form: an earlier statement of the same block is `if not config.use_jsonclass: return <name>`
-            for field in ("body", "orelse", "finalbody"):
-                block = getattr(p, field, None)
-                if isinstance(block, list) and any(n is st for st in block):
-                    for st in block:
-                        if st is n:
-                            break
-                        if isinstance(st, ast.If) and not st.orelse and isinstance(st.test, ast.UnaryOp) \
-                                and isinstance(st.test.op, ast.Not) and _is_cfg_attr(st.test.operand, "use_jsonclass") \
-                                and len(st.body) == 1 and isinstance(st.body[0], ast.Return):
-                            gated = True
-            if gated:
-                break
-            n = p
-        if not gated:
+        try:
+            walk = NZ.Walk(NZ.strip_doc(fn.body), lambda n, c=c: n is c)
+        except NZ.TooComplex:
+            return None
+        if not walk.hits:
             return False
+        for conds, _ in walk.hits:
+            if not conds:
+                return False
+            e, outcome, owner = conds[-1]
+            if not (_is_cfg_attr(e, "use_jsonclass") and outcome):
+                return False
+            if sum(1 for x in conds if x[2] == owner) != 1:
+                return False
     return True
 
 
@@ -267,14 +303,18 @@ def _contains(root, node):
 
 
 def _loads_calls_load(src):
-    """jsonrpc.loads returns load(<parsed>, config) (the gate of `load` is on the path of every decoded text)."""
-    fn = src.func("jsonrpc", "loads")
+    """jsonrpc.loads returns load(<parsed>, config) (the gate of `load` is on the path of every decoded text) —
+    directly or through a local bound once."""
+    fn = NZ.normalised(src, "jsonrpc", "loads")
     if fn is None:
         return None
-    for n in ast.walk(fn):
-        if isinstance(n, ast.Return) and isinstance(n.value, ast.Call) and _is_name(n.value.func, "load") \
-                and len(n.value.args) == 2 and _is_name(n.value.args[1], "config"):
-            return True
+    single = NZ.single_assignments(fn)
+    for n in NZ.dfs_own(fn):
+        v = NZ.resolve(n.value, single) if isinstance(n, ast.Return) and n.value is not None else None
+        if isinstance(v, ast.Call) and _is_name(v.func, "load"):
+            cfg = v.args[1] if len(v.args) == 2 else next((k.value for k in v.keywords if k.arg == "config"), None)
+            if cfg is not None and _is_name(cfg, "config") and len(v.args) + len(v.keywords) == 2 and len(v.args) >= 1:
+                return True
     return False
 
 
@@ -285,12 +325,20 @@ def _config_call_sites(src):
     """Every call of dump / dumps / load / loads / Fault(...) (by bare name or as jsonrpclib.<name>) in jsonrpc.py and
     SimpleJSONRPCServer.py: (module, enclosing class or "", enclosing function, callee, the expression passed as
     `config` — "" when none is passed), sorted, without duplicates.  A call site that drops its configuration falls
-    back to the library default, i.e. to use_jsonclass=True, whatever the proxy or the server was configured with."""
+    back to the library default, i.e. to use_jsonclass=True, whatever the proxy or the server was configured with.
+
+    A site whose configuration is a PARAMETER of a private helper says nothing by itself: the sites are read on
+    jsonclass3.transparent_modules, where such a helper (when it is simple) is inlined into its callers, parameters
+    replaced by the arguments of each call, so that the site is a site of every caller with the expression the caller
+    hands over — nothing when the caller or the helper drops it.  Locals bound once to a plain reference
+    (`cfg = self._config`) are replaced by it."""
+    import jsonclass3
+    trees = jsonclass3.transparent_modules(src)
+    if trees is None:
+        return None
     out = set()
     for mod in ("jsonrpc", "SimpleJSONRPCServer"):
-        tree = src.module(mod)
-        if tree is None:
-            return None
+        tree = trees[mod]
 
         def visit(node, cls, fn):
             for ch in ast.iter_child_nodes(node):
@@ -322,7 +370,7 @@ def _config_call_sites(src):
 
 
 def facts(src):
-    dump = src.func("jsonclass", "dump")
+    dump = NZ.normalised(src, "jsonclass", "dump", KEEP)
     out = []
 
     kt = _known_types(dump) if dump is not None else None
@@ -367,8 +415,8 @@ def facts(src):
                     "passes as config (\"\" = none: the library default, use_jsonclass=True, would apply)",
                     json_value=None if cs is None else [list(x) for x in cs]))
 
-    gd = _gate(src.func("jsonrpc", "dump"), "dump")
-    gl = _gate(src.func("jsonrpc", "load"), "load")
+    gd = _gate(NZ.normalised(src, "jsonrpc", "dump"), "dump")
+    gl = _gate(NZ.normalised(src, "jsonrpc", "load"), "load")
     out.append(Fact("useJsonclassGates", "Bool × Bool",
                     None if gd is None or gl is None else "(%s, %s)" % (lean_bool(gd), lean_bool(gl)), ["C08"],
                     "jsonrpc.dump / jsonrpc.load: every call of jsonclass.dump / jsonclass.load is in the body of `if config.use_jsonclass:`",
